@@ -71,7 +71,7 @@ CLAIMS.update({
         "that hands getfspath() to a real-file API refuses archive VFS objects (evaluated against the real class hierarchy, so a "
         "vacuous isinstance test does not count); the inner chain is the ordinary multiplexer on the archive VFS. Equivalence "
         "with the extracted tree is not decided in general; stat() reports constant regular-file/directory modes; the index lookup is evaluated on a representative index (members, "
-        "non-members, prefixes, directories; 4 lookup histories) so that members are found and non-members refused.",
+        "non-members, prefixes, directories; 4 lookup histories) so that members are found and non-members refused; the index builder makes a directory level only where it is missing (an explicit directory member after its children keeps them).",
         "Trusted: zipfile.ZipFile methods act only on the already opened archive.",
     ),
 })
@@ -95,7 +95,7 @@ CLAIMS.update({
         "a try whose handlers cover every exception class a truncated or zero-filled file can raise, and the failure path "
         "regenerates without marking the data as cached (also when the flag had been set before the load); a dbm index is read "
         "completely under the guard and carries an entry count written last and compared on load. Because a pickle's only STOP opcode is its last byte, no proper prefix "
-        "loads successfully, so this structural condition covers every truncation point.",
+        "loads successfully, so this structural condition covers every truncation point - provided the writer starts from an empty file, which is checked (mode w/x, dbm flag n; no rewrite in place).",
         "Trusted: CPython pickle framing.",
     ),
     "C12": (
@@ -107,7 +107,7 @@ CLAIMS.update({
         "that can raise FileNotFound or OSError for one entry is caught inside the loop body by a handler that lets the loop go on; "
         "the stat before handler selection is absorbed, no handler test subscripts a missing stat result, and handlers that open "
         "what they serve accept only regular files/directories (path-sensitive accept analysis of canhandlerequest); a loop over "
-        "the entry collection does not change that collection.",
+        "the entry collection does not change that collection; the isfile()/isdir()/exists() the guards rely on are evaluated for every kind of object (regular file, directory, FIFO, socket, devices, missing).",
         "Trusted: the may-raise model (handler multiplexer raises FileNotFound; stat/open/listdir raise OSError; exists/isdir/isfile do not).",
     ),
     "C13": (
@@ -160,7 +160,7 @@ CLAIMS.update({
         "selectors are selectorbase/name resolved through the handler chain on the same VFS; folder handlers number and flag "
         "messages the way the message handlers parse them and both step through the same message sequence; the link target each "
         "protocol's renderer produces (evaluated for 12 selectors and the item types), fed to that protocol's request parser, gives "
-        "the selector back; names taken from file content cannot shift the fields of a menu line. "
+        "the selector back; names taken from file content cannot shift the fields of a menu line; an archive's member table is read only by the index that also produces its listings. "
         "That every followed link succeeds is behavioural and not decided.",
         "Trusted: urllib quote/unquote are inverse for equal codec parameters.",
     ),
@@ -236,7 +236,7 @@ CLAIMS.update({
         "gets a symbol; pushed and restored state tuples agree field by field and contain every register nested code can change; "
         "every handler path moves the program counter; every pass of a repeat starts from the element's initial state; local "
         "variables are looked up innermost scope first. "
-        "That expansion equals the TAL/TALES specification is not decided.",
+        "TALES expression semantics are decided on 62 representative expressions (alternation, exists/nocall/not/string, nothing/default, sub-paths) by evaluating Context.evaluate over a small constant context; that every expansion equals the specification is not decided.",
         "Trusted: the list of TAL 1.4 operation priorities.",
     ),
     "C18": (
@@ -247,7 +247,7 @@ CLAIMS.update({
         "or an html.escape'd result - a raw result only where the template asked for structure; with allowPythonPath false no "
         "eval/exec is reachable anywhere in simpletal, the flag is stored unchanged and the TAL handler passes the configured "
         "option; every pushLocals/addRepeat sets a flag that is saved per element and every popLocals/removeRepeat runs only under "
-        "it, and the flags themselves are saved around a nested template run. Pass-through fidelity, idempotence and context equality are not decided.",
+        "it, and the flags themselves are saved around a nested template run; the HTML compiler drives the parser it is built on (no mix-in shadows the parser interface, so buffered text is flushed). Pass-through fidelity in general, idempotence and context equality are not decided.",
         "Trusted: html.escape semantics; simpleTALUtils is not on the expansion path.",
     ),
 })
